@@ -141,6 +141,7 @@ func newMachine(P *Program, ctx *Ctx, solver *Solver, cfg *JobCfg, stats *Stats)
 	m.pools = map[uint64]*PoolState{}
 	m.mutexes = map[uint64]bool{}
 	m.reached = map[string]bool{}
+	m.envCache = map[string]Value{}
 	m.violSeen = map[string]int{}
 	m.varMemo = map[int][]int{}
 	m.qmemo = map[string]Result{}
@@ -205,6 +206,7 @@ func (m *Machine) restore(b *baseState, epoch int) {
 	m.lastPanic = ""
 	m.phase = ""
 	m.witnesses = []witness{{}}
+	m.envCache = map[string]Value{}
 	m.lastModel = nil
 }
 
@@ -278,6 +280,7 @@ func runJob(P *Program, job *Job) (res *JobResult) {
 	stats := &Stats{Funcs: map[string]bool{}, ModelsHit: map[string]int{}}
 	m := newMachine(P, ctx, solver, &job.Cfg, stats)
 	// ---- base state: package inits + optional setup, must be decision-free ----
+	m.inBase = true
 	st, msg := m.guarded(func() {
 		m.runInits()
 		if job.Setup != "" {
@@ -297,6 +300,7 @@ func runJob(P *Program, job *Job) (res *JobResult) {
 		res.Error = "base state made symbolic decisions"
 		return
 	}
+	m.inBase = false
 	base := m.snapshot()
 	// ---- path exploration (DFS over decision prefixes) ----
 	work := []pendingPath{{}}
